@@ -234,7 +234,7 @@ package node
 //@   modifies ghost(proposals, _)
 
 // the state machine as the apply loop sees it
-//@ spec applyEnv(kvsm *kvStoreSM) bool = kvsm != nil && kvsm.store != nil && dbReady(kvsm.store.RockDB)
+//@ spec applyEnv(kvsm *kvStoreSM) bool = kvsm != nil && kvsm.store != nil && dbReady(kvsm.store.RockDB) && kvsm.store.RockDB.hllCache != nil
 
 // leader-side pre-reads of the local store (results arbitrary) and pure argument parsers
 //@ noeffect (*github.com/youzan/ZanRedisDB/rockredis.RockDB).SIsMember (*github.com/youzan/ZanRedisDB/rockredis.RockDB).ZScore (*github.com/youzan/ZanRedisDB/rockredis.RockDB).KVGet (*github.com/youzan/ZanRedisDB/rockredis.RockDB).KVExists (*github.com/youzan/ZanRedisDB/rockredis.RockDB).SCard github.com/youzan/ZanRedisDB/rockredis.IsMemberNotExist
@@ -274,7 +274,7 @@ package node
 //@ spec shape_zremrangebylexCommand(cmd redcon.Command) bool = len(cmd.Args) == 4
 
 //@ func (nd *KVNode) delIfEQCommand(cmd redcon.Command) (interface{}, error)
-//@   requires nd != nil && nd.store != nil && nd.store.RockDB != nil && len(cmd.Args) >= 1
+//@   requires nd != nil && nd.store != nil && nd.store.RockDB != nil && nd.store.RockDB.expiration != nil && len(cmd.Args) >= 1
 //@   ensures ghost(proposals, nd) != old(ghost(proposals, nd)) ==> shape_delIfEQCommand(cmd)
 //@   modifies *
 //@ func (nd *KVNode) lsetCommand(cmd redcon.Command) (interface{}, error)
@@ -310,7 +310,7 @@ package node
 //@   ensures ghost(proposals, nd) != old(ghost(proposals, nd)) ==> shape_setnxCommand(cmd)
 //@   modifies *
 //@ func (nd *KVNode) setIfEQCommand(cmd redcon.Command) (interface{}, error)
-//@   requires nd != nil && nd.store != nil && nd.store.RockDB != nil && len(cmd.Args) >= 1
+//@   requires nd != nil && nd.store != nil && nd.store.RockDB != nil && nd.store.RockDB.expiration != nil && len(cmd.Args) >= 1
 //@   ensures ghost(proposals, nd) != old(ghost(proposals, nd)) ==> shape_setIfEQCommand(cmd)
 //@   modifies *
 //@ func (nd *KVNode) setbitCommand(cmd redcon.Command) (interface{}, error)
@@ -568,7 +568,6 @@ package node
 //@ func (kvsm *kvStoreSM) handleCustomRequest(fromClusterSyncer bool, req *InternalRaftRequest, reqID uint64, stop chan struct{}) (bool, error)
 //@   opt only=POST
 //@   opt autoloops
-//@   requires kvsm != nil && kvsm.store != nil && kvsm.store.RockDB != nil && req != nil && kvsm.w != nil
 //@   ensures ghost(restorefails, old(kvsm.store.RockDB)) != old(ghost(restorefails, kvsm.store.RockDB)) ==> result1 == errIgnoredRemoteApply && !result0
 //@   ensures ghost(restores, old(kvsm.store.RockDB)) != old(ghost(restores, kvsm.store.RockDB)) ==> result1 == nil && result0
 //@   modifies *
